@@ -1,9 +1,68 @@
+import CoupeModel.Model.Kl
 import CoupeModel.Driver.Util
 
 namespace Coupe.Driver.C15
-open Coupe.Driver
+open Coupe.Kl Coupe.Driver
 
-/-- (stub; not built yet) -/
-def handle (_toks : List String) : String := "bad-op"
+/-- `-` = `None`, a number = `Some(n)`. -/
+def parseOptNat? (s : String) : Option (Option Nat) :=
+  if s == "-" then some none else (parseNat? s).map some
+
+def pairUp : List Int → Option (List (Nat × Int))
+  | [] => some []
+  | [_] => none
+  | j :: w :: t => if j < 0 then none else (pairUp t).map (fun l => (j.toNat, w) :: l)
+
+/-- `<deg> {<j> <w>}×deg`, `rows` times. -/
+def takeRows : Nat → List String → Option (Graph × List String)
+  | 0, rest => some ([], rest)
+  | _ + 1, [] => none
+  | r + 1, d :: rest => do
+    let d ← parseNat? d
+    let (flat, rest) ← takeParsed parseInt? (2 * d) rest
+    let row ← pairUp flat
+    let (g, rest) ← takeRows r rest
+    pure (row :: g, rest)
+
+/-- A `sprs::CsMat` can only be built from rows with strictly increasing column indices. -/
+def strictlyIncreasing : List (Nat × Int) → Bool
+  | [] => true
+  | [_] => true
+  | x :: y :: t => x.1 < y.1 && strictlyIncreasing (y :: t)
+
+/-- What the implementation's panic message contains. -/
+def panicClass : Panic → String
+  | .notImplemented => "not implemented"
+  | .cutIndex => "index out of bounds"
+  | .rowMissing => "Option::unwrap()"
+  | .nbrIndex => "index out of bounds"
+  | .unwrapNone => "Option::unwrap()"
+  | .fuel => "MODEL-OUT-OF-FUEL"
+
+/-- op: `kl <max_passes|-> <max_flips|-> <max_bad> <wlen> <n> <ids…> <rows> {<deg> {<j> <w>}…}…`
+out: `ok <cut before> <cut after> | <ids>` | `panic <class>` -/
+def handle (toks : List String) : String :=
+  match toks with
+  | "kl" :: mp :: mf :: mb :: wlen :: n :: rest =>
+    match (do
+      let mp ← parseOptNat? mp
+      let mf ← parseOptNat? mf
+      let mb ← parseNat? mb
+      let wlen ← parseNat? wlen
+      let n ← parseNat? n
+      let (ids, rest) ← takeParsed parseNat? n rest
+      match rest with
+      | r :: rest =>
+        let r ← parseNat? r
+        let (g, rest) ← takeRows r rest
+        if rest.isEmpty && g.all strictlyIncreasing then some (mp, mf, mb, wlen, ids, g) else none
+      | [] => none) with
+    | none => "bad-op"
+    | some (mp, mf, mb, wlen, ids, g) =>
+      match run {} g wlen mp mf mb ids with
+      | .ok out =>
+        "ok " ++ toString (edgeCut g ids) ++ " " ++ toString (edgeCut g out) ++ " | " ++ joinNats out
+      | .panic c => "panic " ++ panicClass c
+  | _ => "bad-op"
 
 end Coupe.Driver.C15
